@@ -86,6 +86,15 @@ func genPeephole(f *ast.File) string {
 				wlen = k + 1
 			default:
 				be, ok := e.(*ast.BinaryExpr)
+				if ok && be.Op == token.NEQ {
+					li, lf := inRef(be.X)
+					v, isConst := constValue(be.Y)
+					if lf == "Code" || !isConst {
+						fatalf(e.Pos(), "unsupported rule condition %s", s)
+					}
+					conds = append(conds, fmt.Sprintf("CNotConst %d F%s %d", li, lf, v))
+					continue
+				}
 				if !ok || be.Op != token.EQL {
 					fatalf(e.Pos(), "unsupported rule condition %s", s)
 				}
